@@ -317,7 +317,14 @@ def well_typed(lang, text, ninputs):
         return None
 
 
-def gen_typed_trees(rng, lang, spec, opdecls, ninputs, rounds=3, per_round=10, p_ann=0.25):
+def head_is_op(t):
+    t = strip_ann(t)
+    while t[0] == "app":
+        t = strip_ann(t[1])
+    return t[0] == "op"
+
+
+def gen_typed_trees(rng, lang, spec, opdecls, ninputs, rounds=3, per_round=10, p_ann=0.25, op_heads=False):
     """pool of mostly well-typed trees, grown bottom-up by trying applications on the implementation"""
     from transforge import type as T
     leaves = [("op", n) for n, _ in opdecls] + [("in", k + 1) for k in range(ninputs)]
@@ -334,6 +341,8 @@ def gen_typed_trees(rng, lang, spec, opdecls, ninputs, rounds=3, per_round=10, p
         while len(new) < per_round and tries < per_round * 8:
             tries += 1
             f = rng.choice(pool)
+            if op_heads and not head_is_op(f):
+                continue
             x = rng.choice(pool)
             t = ("app", f, x)
             if rng.random() < p_ann * 0.3:
